@@ -23,7 +23,8 @@ ASSUMPTIONS = ["files written by pbt/files.py from the format description in the
                "cells of one file share one spacing; rows of a cell are contiguous with magnitude bins in increasing order (documented row order)",
                "lookup oracle = the list of rows; corner points use the exact containment oracle of C01 (slack rule) so that a point within slack below an edge may belong to either neighbour",
                "scale_to_test_date fraction recomputed with exact calendar arithmetic, relative tolerance 1e-12",
-               "sums compared with relative tolerance 1e-12"]
+               "sums compared with relative tolerance 1e-12",
+               "quadtree rows: the box of a row is the tile of its quadkey, bounds = the doubles of the standard Web-Mercator formula evaluated with libm (what the files carry; bit-identical to the library's bounds on all 21844 tiles of zoom 1..7), so exact corner lookups are decided by the file"]
 SHARDS = {"quick": 8, "thorough": 16}
 T0 = D.datetime(2010, 1, 1)
 T1 = D.datetime(2015, 1, 1)
@@ -314,17 +315,22 @@ def check_quad(ctx, case):
     for i, k in enumerate(keys):
         w, s, e, n = b[i]
         m = i % nm
-        for (x, y, mv, mb) in ((w, (s + n) / 2, edges[m], m), ((w + e) / 2, (s + n) / 2, edges[m] + hm / 2, m), ((w + e) / 2, (s + n) / 2, edges[-1] + 25.0, nm - 1)):
+        # the row's box as written in the file (tile bounds = the doubles of the standard Web-Mercator formula, which the file
+        # carries): interior, western edge, exact lower corner, one ulp inside the upper corner
+        probes = ((w, (s + n) / 2, edges[m], m, ""), ((w + e) / 2, (s + n) / 2, edges[m] + hm / 2, m, ""), ((w + e) / 2, (s + n) / 2, edges[-1] + 25.0, nm - 1, ""),
+                  (w, s, edges[m], m, ":lower_corner"), (numpy.nextafter(e, -numpy.inf), numpy.nextafter(n, -numpy.inf), edges[m], m, ":ulp_inside_upper_corner"))
+        for (x, y, mv, mb, tag) in probes:
+            x, y = float(x), float(y)
             o = call(fore.get_rates, numpy.array([x]), numpy.array([y]), numpy.array([mv]))
             c1 = dict(case, only_point=[x, y, mv])
             if not o.ok:
-                ctx.unexpected(o, "get_rates:" + case["k"], c1)
+                ctx.unexpected(o, "get_rates:" + case["k"] + tag, c1)
                 return
             want = float(rates[i, mb]) * FAC(factor, i, mb)
             if len(o.value) != 1 or abs(float(o.value[0]) - want) > RT[0] * abs(want):
-                ctx.violation("lookup_returns_other_rows_rate:" + case["k"], {"pt": [x, y, mv], "got": [float(v) for v in o.value], "want": want}, c1)
+                ctx.violation("lookup_returns_other_rows_rate:" + case["k"] + tag, {"pt": [x, y, mv], "got": [float(v) for v in o.value], "want": want}, c1)
                 return
-    ctx.count("lookups", 3 * len(keys))
+    ctx.count("lookups", 5 * len(keys))
 
 
 def check_case(ctx, case):
@@ -365,6 +371,16 @@ def cases(draw):
     out = []
     for k in keys:
         out += quad.children(k) if draw(st.integers(0, 3)) == 0 else [k]
+    # deeper refinement of a few tiles (zoom 4..7: latitude edges that are not "round" in any sense)
+    for _ in range(draw(st.integers(0, 3))):
+        j = draw(st.integers(0, len(out) - 1))
+        sub = [out[j]]
+        for _ in range(draw(st.integers(1, 4))):
+            sub = [c for k in sub for c in quad.children(k)]
+            if len(sub) > 16:
+                sub = sub[:3] + sub[-3:] + [draw(st.sampled_from(sub))]     # a few of them only (a partial grid is fine)
+                sub = sorted(set(sub))
+        out = out[:j] + sub + out[j + 1:]
     if draw(st.booleans()) and len(out) > 3:
         keep = draw(st.lists(st.booleans(), min_size=len(out), max_size=len(out)))
         out = [k for k, kp in zip(out, keep) if kp] or out[:2]
